@@ -48,7 +48,7 @@ REQUIRED_COUNTERS = (['obs:jacvec-duality', 'obs:apply_linear-duality', 'obs:sol
                       'obs:assembled-model', 'obs:scaled-model-total-operator',
                       'obs:component-operators', 'obs:external-input-seeds', 'obs:jacvec-no-relinearize',
                       'obs:other-root-reached', 'obs:history-steps-judged', 'obs:repeated-seed-vectors',
-                      'obs:rhs-cache-alive-model'] +
+                      'obs:rhs-cache-alive-model', 'obs:compute_totals-fwd-vs-rev'] +
                      ['move:G:' + m for m in K2.MOVES_G] + ['move:stock:' + m for m in K2.MOVES_STOCK] +
                      ['class:' + c for c in sorted(set(K2.CLASS_OF.values()))])
 ASSUMPTIONS = ['linear solves are judged only when no linear solver reported non-convergence',
@@ -118,6 +118,24 @@ def _judge_total(probs, of_names, wrt_names, of_shapes, wrt_shapes, nr, fmon, ac
         acc.count('obs:jacvec-no-relinearize')
     if not abs(lhs - rhs) <= tol:
         bad.append(('jacvec' if linearize else 'jacvec-linearize=False', None, step, abs(lhs - rhs), tol))
+
+
+def _judge_totals(probs, of_names, wrt_names, fmon, acc, bad, step):
+    """the identity with unit seed vectors, through the operator users drive most: compute_totals of the fwd-mode
+    twin against compute_totals of the rev-mode twin (this is where the reverse-mode solution caches live)."""
+    fmon.clear()
+    Jf = np.asarray(probs['fwd'].compute_totals(of=of_names, wrt=wrt_names, return_format='array'))
+    Jr = np.asarray(probs['rev'].compute_totals(of=of_names, wrt=wrt_names, return_format='array'))
+    if fmon.failures:
+        acc.count('skipped:linear-nonconvergence-total')
+        return
+    # entries are <e_i, J e_j>: same tolerance as a jacvec product with unit vectors (|w| = |v| = 1)
+    nf = max(np.abs(Jf).max(), np.abs(Jr).max()) if Jf.size else 0.0
+    tol = 2e-7 * nf * np.sqrt(max(Jf.shape)) + 1e-9 if Jf.size else 0.0
+    err = np.abs(Jf - Jr).max() if Jf.size else 0.0
+    acc.count('obs:compute_totals-fwd-vs-rev')
+    if not err <= tol:
+        bad.append(('compute_totals', None, step, err, tol))
 
 
 def _judge_systems(systems, nr, fmon, acc, bad, step, reps, memo=None):
@@ -312,6 +330,7 @@ def run_case(case, acc):
                 if move == 'relin':
                     _judge_total(probs, of_names, wrt_names, of_shapes, wrt_shapes, hnr, fmon, acc, bad, step,
                                  linearize=False, memo=memo)
+                _judge_totals(probs, of_names, wrt_names, fmon, acc, bad, step)
                 # ---- group operators (rev-mode problem has both transfer directions) -------------------
                 p.model.run_linearize()
                 if scaled and k == 0:
@@ -422,6 +441,8 @@ def run_stock_case(case, acc):
             return
         info = infos['rev']
         of_names, wrt_names = info['of'], info['wrt']
+        # compute_totals: the first block's output too (with rhs_checking it is a declared response post.f depends on)
+        tot_of = [info['paths'][spec['blocks'][0]['name']] + '.y'] + of_names
         state_shapes = {st: (n,) for st, _, _ in info['states']}
         indep_shapes = {w: (n,) for w in wrt_names}
         bad = []
@@ -460,6 +481,7 @@ def run_stock_case(case, acc):
                 if move == 'relin':
                     _judge_total(probs, of_names, wrt_names, [(n,)], [(n,), (n,)], nr, fmon, acc, bad, step,
                                  linearize=False, memo=memo)
+                _judge_totals(probs, tot_of, wrt_names, fmon, acc, bad, step)
                 p.model.run_linearize()
                 _judge_systems(systems, nr, fmon, acc, bad, step, 2 if k == 0 else 1, memo=memo)
                 if k > 0:
